@@ -69,7 +69,7 @@ def run(model, col, tier):
         if "_GetCommonScalarType" in ob.construct:
             ob.rule = "R09.2"
             col.obligations.append(ob)
-        elif "AddImplicitCasts" in ob.construct or "v_CastExpression" in ob.construct:
+        elif "AddImplicitCasts" in ob.construct or "v_CastExpression" in ob.construct or "_CreateLinearIRType" in ob.construct:
             ob.rule = "R09.3"
             col.obligations.append(ob)
     gp = model.func(TYPES, "_GetCommonPrimitiveType")
